@@ -81,11 +81,24 @@ func compareModel(c *Ctx, p *m.Program, opt compareOpts) (*m.Result, *sb.Resp, *
 		}
 		c.Ev.Label("poisoned-before", 1)
 	}
-	r := c.SB.Do(execReq(p))
+	req := execReq(p)
+	// one case in five renders through ExecuteSafe: same bytes on success,
+	// nothing at all on failure
+	if hashStr(key)%5 == 1 {
+		req.Safe = true
+		c.Ev.Label("via-ExecuteSafe", 1)
+	}
+	r := c.SB.Do(req)
 	if r.Fatal() || r.Status == "infra" {
 		return res, r, fatalFail(r)
 	}
 	src := progSrc(p)
+	if req.Safe {
+		src += "\n(rendered with ExecuteSafe)"
+		if r.Status == "error" && r.Out != "" {
+			return res, r, &Fail{Sig: "safe-wrote-on-error", Expected: "no output from a failed ExecuteSafe", Observed: r.Out + "\nsource: " + src}
+		}
+	}
 	switch res.Status {
 	case "ok":
 		if r.Status != "ok" {
